@@ -84,3 +84,29 @@ def action_space_action_to_int(self, action):
 @contract(target=SP + 'ActionSpace.num_actions', args={'self': ASPACE}, props=['C20'])
 def action_space_num_actions(self):
     ensures('count', lambda: returned() and result() == 8)
+
+
+# ------------------------------------------------------------------------- builders
+@lemma(args={'shape': 'Shape', 'types': ('list', 'Class', 3), 'colors': ('list', 'Color', 2), 'skip': ('oneof', [0, 1, 2, 3])},
+       props=['C01', 'C15'])
+def state_space_builder(shape, types, colors, skip):
+    from gym_gridverse.utils.space_builders import StateSpaceBuilder
+    b = StateSpaceBuilder()
+    if skip != 1:
+        b.set_grid_shape(shape)
+    if skip != 2:
+        b.set_object_types(types)
+    if skip != 3:
+        b.set_colors(colors)
+    if skip == 0:
+        s = b.build()
+        check('builds-the-space-of-the-given-parts', lambda: s.grid_shape == shape and all(
+            s.object_types[i] is types[i] for i in range(3)) and len(s.object_types) == 3
+            and all(c in s.colors for c in colors) and Color.NONE in s.colors)
+    else:
+        try:
+            b.build()
+            ok = False
+        except RuntimeError:
+            ok = True
+        check('incomplete-builder-raises', lambda: ok)
